@@ -55,6 +55,13 @@ def run(ctx):
             miops.append(f'sxg.mi {exs(e)} {rs}')
             plain.append(e[7])
             meta.append(k)
+    # header fields a shared cache must not store, under keys that are NOT in Go's canonical form (hand-made map): refused or not, the
+    # verdict must be the same before the write and after the read (the reader rebuilds the map with canonical keys)
+    for ver in VERS:
+        for raw in (b'set-cookie', b'SET-COOKIE', b'WWW-Authenticate', b'strict-transport-security', b'Set-cookie', b'x-harmless'):
+            e = ex(ver, b'https://example.com/', b'GET', [], 200, [(b'Content-Type', [b'text/html']), (raw, [b'v=1'])], b'', rbytes(rng, 20))
+            unsigned.append(f'sxg.sign {exs(e)} 16 {keys[0]["cert"]} {keys[0]["key"]} {hexs(certurl)} {hexs(vurl)} {date} {expires}')
+            miops.append(f'sxg.mi {exs(e)} 16'); plain.append(e[7]); meta.append(keys[0])
     # the MI-encoding step of signing, compared with the model (payload stream, Digest / Content-Encoding headers)
     ctx.both(miops)
     # one *Exchange object reused: serialised / hashed / written as A, then edited in place into B: every output must be B's
@@ -130,6 +137,20 @@ def run(ctx):
             dtz[len(ditems)] = ['America/New_York', 'Europe/Berlin', 'Australia/Sydney', 'UTC']
             ditems.append((e, t, {certurl: keys[0]['chain']}))
     verify_stage(ctx, ditems, tz=dtz)
+    # 4c. inputs outside the model's domain (header names with non-ASCII letters, in either case; the model folds ASCII only): the
+    #     property's own round trip on the real code alone -- what the library agreed to sign and write reads back with the same fields
+    #     and the same verdict, or it is refused at signing / writing time
+    odd = ['X-\u00dcbung', 'x-\u00fcbung', 'X-\u212aelvin', 'X-\u017fong', 'X-\u0130', 'X-\u0131', 'X-\u00df', 'X-\u01c5', 'X-\u03a3\u03c3\u03c2', 'X-\u65e5\u672c', 'X-caf\u00e9', 'X-\u00c9', 'x-plain', 'X-Plain']
+    rops = []
+    for ver in VERS:
+        for nm in odd:
+            for col in ([5] if ver == 'b3' else [5, 3]):
+                e = list(ex(ver, b'https://example.com/', b'GET', [], 200, [(b'Content-Type', [b'text/html'])], b'', b'payload'))
+                e[col] = (e[col] + ';' if e[col] != '.' else '') + hexs(nm.encode('utf-8')) + '=' + hexs(b'v')
+                rops.append(f'sxg.rt.sign {exs(e)} 16 {keys[0]["cert"]} {keys[0]["key"]} {hexs(certurl)} {hexs(vurl)} {date} {expires} {keys[0]["chain"]} {date + 10}')
+    for op, r in zip(rops, ctx.go(rops)):
+        if r and r.startswith('refused'): continue
+        ctx.records.append((' '.join(op.split(' ')[:7])[:400], r or 'crash', 'same'))
     # 5. length boundaries of the writer
     ops = []
     for ver in VERS:
